@@ -255,7 +255,7 @@ Section ProtoProofs.
         /\ (forall e, g e = mkLog (lg_parent e) (lg_slate e) (lg_type e) (lg_confirmed e)
                                   (Some (kn_excess cf_k))
                                   (finalize_proof sk pk esig pub sign addr_sk (lg_proof e) (sl_proof r)
-                                                  (cx_pp_index c) (w_parent w) (cx_amount c) (kn_excess cf_k))
+                                                  (cx_pp_index c) (cx_parent c) (cx_amount c) (kn_excess cf_k))
                                   (lg_fee e) (lg_credited e) (lg_debited e))
         /\ (forall e, f e = (match lg_slate e with Some i => i =? sl_id r | None => false end)
                             && type_eqb (lg_type e) want)
@@ -720,3 +720,26 @@ Example tampered_examples :
 Proof.
   intros m Hm. repeat (destruct Hm as [<-|Hm]; [vm_compute; eexists; reflexivity|]). destruct Hm.
 Qed.
+
+(** non-vacuity of the late-lock, refused-late-lock and invoice theorems: a late-locked send
+    whose coins are selected inside finalize_tx finalizes; the same send with the reply's
+    offset altered is refused after the lock, leaving one more (cancellable) log entry; an
+    invoice paid by the counterparty (one 60-grin input, change, fee) finalizes on the
+    issuer's side. *)
+Definition ex_late_a : exch :=
+  mkExch 1 0 0 [] [] 2000000000 (Some 23000000) None (Some (mkLate 1 500 1 false)) 0 false.
+Definition ex_late_case (m : mutation) : case :=
+  mkCase 0 5 5 226 ex_os ex_late_a None 2 false ex_honest ex_honest 10 m.
+Definition ex_inv_a : exch :=
+  mkExch 1 0 0 [] [(1, 2000000000)] 2000000000 None None None 0 true.
+Definition ex_payer : forge :=
+  mkForge [(100, 57977000000)] [(200, 60000000000%Z)] (Some 23000000) 0 None StI2 1.
+Definition ex_inv_case (m : mutation) : case :=
+  mkCase 0 5 5 226 [] ex_inv_a None 2 false ex_payer ex_payer 10 m.
+
+Example late_and_invoice_examples :
+  run_case (ex_late_case MNone) = [0; 1; 2; 23000000; 0; 1]%Z
+  /\ run_case (ex_late_case (MOffAdd 1)) = [1; 15; 1]%Z
+  /\ run_case (ex_inv_case MNone) = [0; 1; 2; 23000000; 0; 1]%Z
+  /\ run_case (ex_inv_case (MOffAdd 1)) = [1; 15; 0]%Z.
+Proof. repeat split; vm_compute; reflexivity. Qed.
